@@ -1,6 +1,7 @@
 package props
 
 import (
+	"errors"
 	"fmt"
 	"net"
 	"sync"
@@ -138,6 +139,7 @@ type NatSock struct {
 	// the number of earlier calls: a scheduling point inside the server's write path.
 	OnSetDeadline func(call int, dl time.Time)
 	nSetDL        int
+	failImmediate bool
 	reg           *NatRegistry
 }
 
@@ -147,12 +149,29 @@ func (s *NatSock) ev(e natEv) {
 	s.Events = append(s.Events, e)
 	s.mu.Unlock()
 }
+
+// FailNextImmediateDeadline makes the next SetReadDeadline whose deadline is "now" fail (once)
+// without taking effect: what a socket does when the kernel refuses the call during a shutdown.
+func (s *NatSock) FailNextImmediateDeadline() {
+	s.mu.Lock()
+	s.failImmediate = true
+	s.mu.Unlock()
+}
+
 func (s *NatSock) SetReadDeadline(t time.Time) error {
 	s.mu.Lock()
 	call := s.nSetDL
 	s.nSetDL++
 	hook := s.OnSetDeadline
+	fail := s.failImmediate && !t.After(time.Now().Add(2*time.Millisecond))
+	if fail {
+		s.failImmediate = false
+	}
 	s.mu.Unlock()
+	if fail {
+		s.ev(natEv{Kind: "setReadDeadlineFailed", DL: t, Err: "injected: set deadline fails"})
+		return errors.New("injected: set deadline fails")
+	}
 	if hook != nil {
 		hook(call, t)
 	}
